@@ -23,7 +23,7 @@ ASSUMPTIONS = [
     "'tree left as it was' = every field, child order, object identity and the registry equal the pre-snapshot",
     "validity before/after is decided by the real validate.tree (judged separately by C01-C05)",
 ]
-REQUIRED = ["trees_naming_identifier_systems", "expansions_of_a_part_of_a_bigger_document", "ids_used_3_times", "expansions_beside_a_second_load_of_the_same_model", "references_in_the_other_unicode_composition", "ids_differing_in_unicode_composition_only", "second_round_after_source_was_replaced", "second_round_after_source_was_removed", "expansions", "references_expanded", "valid_before_and_after", "reference_followed_by_siblings", "fault_dangling", "fault_duplicate",
+REQUIRED = ["trees_with_id_like_qualified_attributes", "expansions_adding_more_than_100000_nodes", "trees_naming_identifier_systems", "expansions_of_a_part_of_a_bigger_document", "ids_used_3_times", "expansions_beside_a_second_load_of_the_same_model", "references_in_the_other_unicode_composition", "ids_differing_in_unicode_composition_only", "second_round_after_source_was_replaced", "second_round_after_source_was_removed", "expansions", "references_expanded", "valid_before_and_after", "reference_followed_by_siblings", "fault_dangling", "fault_duplicate",
             "source_after_reference_in_document_order", "source_before_reference_in_document_order", "copies_checked_for_aliasing"]
 EXHAUSTIVE = {"quick": False, "thorough": False}
 
@@ -414,6 +414,16 @@ def one(ctx, gen, i):
                 s_.add_attribute("scope", rng.choice(["document", "system"]))
         ctx.count("trees_naming_identifier_systems")
         log.append("system attributes")
+    if i % 6 == 4:
+        # qualified attributes that look like identifiers (xml:id as the XML importer files it, xsi:id, a Clark-notation id): they are no
+        # `id` attributes - one may repeat a real id, another may carry the value a dangling reference asks for
+        real = pairs[0][1].attributes["id"]
+        others = [x for x in treegen.all_nodes(root) if x is not pairs[0][1]]
+        for x, (k, v) in zip(rng.sample(others, min(4, len(others))),
+                             [("xml:id", real), ("xml:id", "no-such-id"), ("{http://www.w3.org/XML/1998/namespace}id", real), ("xsi:id", "SRC-1")]):
+            x.add_extras(k, v)
+        ctx.count("trees_with_id_like_qualified_attributes")
+        log.append("id-like qualified attributes")
     outside = None
     mode = rng.random()
     if i % 4 == 2 and mode >= 0.55 or i % 8 == 2:
@@ -457,13 +467,54 @@ def one(ctx, gen, i):
     emlkit.discard(root)
 
 
+def big_expansion(ctx, tables, attributes):
+    """One shared attribute list referenced by a dozen data tables (the layout of sensor networks: many tables, one schema): an expansion
+    that creates more than a hundred thousand nodes is an expansion like any other."""
+    ds = Node("dataset")
+    ds.add_child(Node("title", content="big expansion"))
+    for t in range(tables + 1):
+        dt = Node("dataTable")
+        dt.add_child(Node("entityName", content=f"table {t}"))
+        al = Node("attributeList")
+        if t == 0:
+            al.add_attribute("id", "shared-attributes")
+            for a in range(attributes):
+                at = Node("attribute")
+                for nm in ("attributeName", "attributeDefinition", "storageType"):
+                    at.add_child(Node(nm, content=f"{nm} {a}"))
+                ms = Node("measurementScale")
+                nom = Node("nominal")
+                nn = Node("nonNumericDomain")
+                td = Node("textDomain")
+                td.add_child(Node("definition", content="text"))
+                nn.add_child(td)
+                nom.add_child(nn)
+                ms.add_child(nom)
+                at.add_child(ms)
+                al.add_child(at)
+        else:
+            al.add_child(Node("references", content="shared-attributes"))
+        dt.add_child(al)
+        ds.add_child(dt)
+    ctx.count("expansions_adding_more_than_100000_nodes")
+    judge_ok(ctx, ds, None, [f"{tables} tables referencing one list of {attributes} attributes"], {"big_expansion": [tables, attributes]})
+    emlkit.discard(ds)
+
+
 def run(ctx, params):
     gen = treegen.Gen(exclude={"references"})
+    if params.get("salt", 0) == 0:
+        ctx.case(big_expansion, ctx, 12, 1200, seconds=900.0)
     for i in range(params["trees"]):
         ctx.case(one, ctx, gen, i)
 
 
 def replay(ctx, witness):
+    if "big_expansion" in witness:
+        big_expansion(ctx, *witness["big_expansion"])
+        ctx.distinct(1)
+        ctx.distinct(2)
+        return
     root = snapshot.from_plain(Node, witness["tree"])
     if witness.get("outside"):
         in_document(root, witness["outside"])
